@@ -197,7 +197,7 @@ func runC02(r *vk.Run) {
 		"non-trivial = distinct (inventory, selector) whose expected selection is neither empty nor everything.")
 	r.Assume("keys whose sanitised names collide (with each other or a built-in label) are excluded and counted", "since must be floor(window start in s); until floor or ceil of window end")
 
-	r.Phase("select", r.N(6000, 150000), func(c *vk.Case) {
+	r.Phase("select", r.N(6000, 3000000), func(c *vk.Case) {
 		rng := c.Rng
 		inv := genInventory(rng, 12)
 		ms := genSelector(rng, inv)
@@ -358,7 +358,7 @@ func runC02(r *vk.Run) {
 		}
 	})
 	// end to end: the built plugin binary against a fake daemon on a unix socket
-	r.Phase("e2e", r.N(25, 400), func(c *vk.Case) {
+	r.Phase("e2e", r.N(25, 2500), func(c *vk.Case) {
 		rng := c.Rng
 		inv := genInventory(rng, 8)
 		for i := range inv {
